@@ -149,6 +149,11 @@ impl Script {
         false
     }
 
+    /// the voter whose answer the election in flight is waiting for
+    pub fn next_vote_peer(&self) -> Option<u32> {
+        self.cluster.as_ref().unwrap().election.as_ref().map(|e| e.peers[e.answered.len()])
+    }
+
     /// node whose election (vote collection) is in flight
     pub fn election_node(&self) -> Option<u32> {
         self.cluster.as_ref().unwrap().election.as_ref().map(|e| e.node)
